@@ -125,9 +125,13 @@ def undirected_case(ctx, rng, idx, N):
     import hypergraphx as hgx
 
     n = rng.randint(3, 9 if N == 3 else 8)
+    big = N == 3 and (idx in (0, 1) or (ctx.tier == "thorough" and idx % 300 == 10))
+    if big:
+        n = rng.randint(18, 30)
+        ctx.event("big-hypergraph")
     nodes = list(range(n))
     edge_sets = set()
-    for _ in range(rng.randint(1, 14)):
+    for _ in range(rng.randint(1, 14) if not big else rng.randint(40, 90)):
         s = min(rng.choice([1, 2, 2, 2, 3, 3, 4, 4, 5, 6]), n)
         edge_sets.add(frozenset(rng.sample(nodes, s)))
     h = hgx.Hypergraph([tuple(sorted(e)) for e in sorted(edge_sets, key=sorted)])
@@ -139,7 +143,7 @@ def undirected_case(ctx, rng, idx, N):
     if base is None:
         return
     # metamorphic: relabel by a permutation onto non-contiguous labels + shuffled insertion order
-    img = rng.sample(range(0, 60, 1), n)
+    img = rng.sample(range(0, 90, 1), n)
     pm = dict(zip(nodes, img))
     rel = [tuple(pm[v] for v in e) for e in edge_sets]
     rng.shuffle(rel)
@@ -157,6 +161,8 @@ def undirected_case(ctx, rng, idx, N):
                 k = canon(p, N)
                 got2[k] = got2.get(k, 0) + c
         ctx.check("C11:relabel-invariance", got2 == base, f"C11:order{N}:census-changed-under-relabelling-or-insertion-order", lambda: wit({"perm": pm, "got": sorted(got2.items()), "base": sorted(base.items())}))
+    if sum(base.values()) >= 2:
+        ctx.distinct_add((N, tuple(sorted(map(lambda e: tuple(sorted(e)), edge_sets)))))
     # the same Hypergraph object after an in-place edit that keeps the numbers of nodes and hyperedges
     from ..mutate import same_count_edit
 
